@@ -83,6 +83,9 @@ structure State where
 structure Cfg where
   tgt : Nat → Nat
   top : Nat
+  /-- the `CommitLock` knows the table's versions: `lock(v)` answers `CommitConflict` instead of granting the
+      lock when version `v` is already committed (the contract allows both kinds of lock) -/
+  lockChecks : Bool := false
 
 def upd {α} (f : Nat → α) (i : Nat) (v : α) : Nat → α := fun j => if j = i then v else f j
 
@@ -114,10 +117,14 @@ def renameEff (s : State) (v i : Nat) : State :=
 
 def setLock (s : State) (l : Option Nat) : State := { s with lock := l }
 
-/-- effect of `lock()` answered by the lock service: granted iff free -/
-def acquire (s : State) (i : Nat) : State :=
+/-- a checking lock refuses `lock(v)` for task `i` because its version is already committed -/
+def refuses (cfg : Cfg) (s : State) (i : Nat) : Bool :=
+  cfg.lockChecks && (s.final (cfg.tgt i)).isSome
+
+/-- effect of `lock()` answered by the lock service: granted iff free (and not refused) -/
+def acquire (cfg : Cfg) (s : State) (i : Nat) : State :=
   match s.lock with
-  | none => setLock s (some i)
+  | none => if refuses cfg s i then s else setLock s (some i)
   | some _ => s
 
 /-- effect of `lease.release(_)` of the lease handed to `i` -/
@@ -176,10 +183,12 @@ def step (cfg : Cfg) (s : State) (i : Nat) (f : Fault) : State :=
   | .lkLock =>
     match f with
     | .failBefore => go s i f (.done .err)
-    | .lost => go (acquire s i) i f (.done .err)                        -- granted (if free) but never learnt: leaked lease
+    | .lost => go (acquire cfg s i) i f (.done .err)                    -- granted (if free) but never learnt: leaked lease
     | _ =>
       match s.lock with
-      | none => go (setLock s (some i)) i f .lkHead
+      | none =>
+        if refuses cfg s i then go s i f (.done .conflict)              -- "return CommitConflict if the version has already been committed"
+        else go (setLock s (some i)) i f .lkHead
       | some _ => go s i f .lkLock                                      -- "wait until it is unlocked"
   | .lkHead =>
     match f with
